@@ -110,7 +110,7 @@ func unitsFor(P *Program, C *Contracts, prop string) (units []*Unit, trusted []s
 func verifyStructural(P *Program, C *Contracts, st *Structural) *Unit {
 	u := newUnit(P, C, "structural:"+st.Kind+":"+st.Target)
 	switch st.Kind {
-	case "nocallers":
+	case "nocallers", "callersonly":
 		key := st.Target
 		if _, ok := P.Funcs[key]; !ok {
 			key = st.Pkg + "." + st.Target
@@ -128,7 +128,15 @@ func verifyStructural(P *Program, C *Contracts, st *Structural) *Unit {
 			for _, b := range fn.Blocks {
 				for _, ins := range b.Instrs {
 					if ci, ok := ins.(ssa.CallInstruction); ok && ci.Common().StaticCallee() == target {
-						callers = append(callers, shortKey(k))
+						okCaller := false
+						for _, a := range st.Allowed {
+							if shortKey(k) == a || strings.HasSuffix(k, "."+a) {
+								okCaller = true
+							}
+						}
+						if !okCaller {
+							callers = append(callers, shortKey(k))
+						}
 					}
 					for _, op := range ins.Operands(nil) {
 						if op != nil && *op == ssa.Value(target) {
@@ -142,6 +150,9 @@ func verifyStructural(P *Program, C *Contracts, st *Structural) *Unit {
 		}
 		goal := "true"
 		desc := "no non-test code calls " + st.Target + ": " + st.Why
+		if st.Kind == "callersonly" {
+			desc = "only " + strings.Join(st.Allowed, ", ") + " call " + st.Target + ": " + st.Why
+		}
 		if len(callers) > 0 {
 			goal = "false"
 			desc += " — called from " + strings.Join(callers, ", ")
@@ -388,9 +399,9 @@ func report(run *propertyRun, C *Contracts) int {
 			case "discharged":
 				discharged++
 				bySolver[o.Solver]++
-			case "cover-unknown":
+			case "cover-unknown", "cover-sat-without-quantified-hypotheses":
 				discharged++
-				bySolver["cover-unknown"]++
+				bySolver[o.Result]++
 			default:
 				failed = append(failed, o)
 			}
